@@ -11,4 +11,10 @@ CONSTANTS
   SeqBodies = {"str", "stream"}
   MaxReq = 3
   DefectChoices = {{}, {"head_noclose", "bodiless_body", "push_cl", "empty_chunk", "chunk_noterm", "stream_sized"}}
+INVARIANT TypeOK
+INVARIANT IConforms
+INVARIANT IFramed
+INVARIANT KeepAliveUsable
+INVARIANT NoStalePair
+INVARIANT OpenIsNotClosed
 CHECK_DEADLOCK FALSE
